@@ -1097,6 +1097,16 @@ func RunSession(spec *SessSpec) *Trace {
 			w0 := s.writeCount()
 			full.Commit()
 			env.Log.Add(evlog.Rec{K: "ctl.absorbedcommit", VB: -1, A: uint64(s.writeCount() - w0)})
+		case "breakfile": // the directory of the checkpoint file disappears: the next file save is rejected by the file system
+			if tr.FilePath != "" {
+				_ = os.Rename(filepath.Dir(tr.FilePath), filepath.Dir(tr.FilePath)+".gone")
+				env.Log.Add(evlog.Rec{K: "ctl.breakfile", VB: -1})
+			}
+		case "fixfile":
+			if tr.FilePath != "" {
+				_ = os.Rename(filepath.Dir(tr.FilePath)+".gone", filepath.Dir(tr.FilePath))
+				env.Log.Add(evlog.Rec{K: "ctl.fixfile", VB: -1})
+			}
 		case "extwrite": // another writer (a second member, an operator) stores a checkpoint for vBucket VB: seqno N, snapshot [N,N], current branch
 			vbw := uint16(st.VB)
 			uu := env.Sim.FailoverCopy(vbw)[0].UUID
